@@ -79,7 +79,8 @@ fn main() {
     use std::sync::atomic::Ordering::Relaxed;
     for (k, n) in [("argv-spelling:as-written", run::SPELL_PLAIN.load(Relaxed)), ("argv-spelling:short-flag", run::SPELL_SHORT.load(Relaxed)),
       ("argv-spelling:flag=value", run::SPELL_EQUALS.load(Relaxed)), ("argv-spelling:positional-input", run::SPELL_POSITIONAL.load(Relaxed)),
-      ("argv-spelling:dot-slash-path", run::SPELL_DOTSLASH.load(Relaxed))] {
+      ("argv-spelling:dot-slash-path", run::SPELL_DOTSLASH.load(Relaxed)),
+      ("working-directory:reached-through-a-link-paths-climb-back", run::CWD_SHIFTED.load(Relaxed))] {
       if n > 0 {
         report.hit_n(k, n);
       }
